@@ -186,7 +186,7 @@ namespace {
     }
     res += "]";
     chai.reset();
-    res += ",\"live\":" + std::to_string(Tk::live() - 1) + ",\"uaf\":" + std::to_string(Tk::touched_after_destroy());
+    res += ",\"live\":" + std::to_string(Tk::live() - 3) + ",\"uaf\":" + std::to_string(Tk::touched_after_destroy());
     res += "}";
     return res;
   }
